@@ -2,6 +2,7 @@ package html
 
 import (
 	"io"
+	"sync"
 
 	"github.com/elliotchance/gedcom/v39"
 	"github.com/elliotchance/gedcom/v39/html/core"
@@ -76,7 +77,8 @@ func (c *PublishHeader) WriteHTMLTo(w io.Writer) (int64, error) {
 	}
 
 	if c.options.ShowSurnames {
-		badge := core.NewCountBadge(getSurnames(c.document).Len())
+		badge := core.NewCountBadge(
+			getSurnames(c.document, c.options.LivingVisibility).Len())
 		item := core.NewNavItem(
 			core.NewComponents(core.NewText("Surnames "), badge),
 			c.selectedTab == selectedSurnamesTab,
@@ -122,9 +124,22 @@ func (c *PublishHeader) WriteHTMLTo(w io.Writer) (int64, error) {
 
 var surnames = gedcom.NewStringSet()
 
-func getSurnames(document *gedcom.Document) *gedcom.StringSet {
+// surnamesMutex makes sure that pages rendered in parallel wait for the first
+// one to collect all the surnames.
+var surnamesMutex sync.Mutex
+
+func getSurnames(document *gedcom.Document, visibility LivingVisibility) *gedcom.StringSet {
+	surnamesMutex.Lock()
+	defer surnamesMutex.Unlock()
+
 	if surnames.Len() == 0 {
 		for _, individual := range document.Individuals() {
+			// A living individual only contributes a surname when living
+			// individuals are shown.
+			if visibility != LivingVisibilityShow && individual.IsLiving() {
+				continue
+			}
+
 			surname := individual.Name().Surname()
 			if surname != "" {
 				surnames.Add(surname)
